@@ -303,3 +303,136 @@ Proof.
   specialize (H Hs). destruct nt_forged_accepted as [Ha [Hz _]].
   specialize (H Ha). rewrite Hz in H. simpl in H. lia.
 Qed.
+
+(* ---- the notarization-message path: UnknownTickets de-duplicates ---- *)
+Lemma nt_union_nodup rec : forall have acc,
+  (forall x, In x (nt_vids acc) -> In x have) -> NoDup (nt_vids acc) ->
+  NoDup (nt_vids (nt_union have acc rec)) /\
+  (forall t, In t (nt_union have acc rec) -> In t acc \/ (In t rec /\ ~ In (nt_vid t) have)).
+Proof.
+  induction rec as [|t rec IH]; simpl; intros have acc Hsub Hn.
+  - split; [exact Hn | intros u Hu; left; exact Hu].
+  - destruct (existsb (Nat.eqb (nt_vid t)) have) eqn:E.
+    + destruct (IH have acc Hsub Hn) as [H1 H2]. split; [exact H1|].
+      intros u Hu. destruct (H2 u Hu) as [Ha|[Hr Hh]]; [left; exact Ha | right; split; [right; exact Hr | exact Hh]].
+    + apply nt_existsb_notin in E.
+      destruct (IH (nt_vid t :: have) (acc ++ [t])) as [H1 H2].
+      * intros x Hx. unfold nt_vids in Hx. rewrite map_app in Hx. apply in_app_or in Hx.
+        destruct Hx as [Hx|[Hx|[]]]; [right; apply Hsub; exact Hx | left; exact Hx].
+      * unfold nt_vids. rewrite map_app. simpl. apply nt_nodup_snoc; [exact Hn|].
+        intros Hin. apply E. apply Hsub. exact Hin.
+      * split; [exact H1|]. intros u Hu. destruct (H2 u Hu) as [Ha|[Hr Hh]].
+        -- apply in_app_or in Ha. destruct Ha as [Ha|[Ha|[]]]; [left; exact Ha|].
+           subst u. right. split; [left; reflexivity | exact E].
+        -- right. split; [right; exact Hr | intros Hx; apply Hh; right; exact Hx].
+Qed.
+
+(* the tickets UnknownTickets lets through: pairwise distinct verifiers, none the block has already *)
+Lemma nt_unknown_nodup own incoming :
+  NoDup (nt_vids (nt_unknown own incoming)) /\
+  (forall t, In t (nt_unknown own incoming) -> In t incoming /\ ~ In (nt_vid t) (nt_vids own)).
+Proof.
+  unfold nt_unknown.
+  destruct (nt_union_nodup incoming (nt_vids own) []) as [H1 H2]; [intros x []| constructor |].
+  split; [exact H1|]. intros t Ht. destruct (H2 t Ht) as [[]|H]. exact H.
+Qed.
+
+Lemma nt_merge_nodup own vts :
+  NoDup (nt_vids own) -> NoDup (nt_vids vts) ->
+  (forall t, In t vts -> ~ In (nt_vid t) (nt_vids own)) ->
+  NoDup (nt_vids (nt_merge own vts)).
+Proof.
+  intros Ho Hv Hd. unfold nt_merge. destruct own as [|o own]; [exact Hv|].
+  destruct vts as [|v vts]; [exact Ho|].
+  destruct (nt_union_nodup (v :: vts) (nt_vids (o :: own)) (o :: own)) as [H1 _];
+    [intros x Hx; exact Hx | exact Ho | exact H1].
+Qed.
+
+(* the block's ticket list after a notarization message never repeats a verifier *)
+Lemma nt_notarization_merged_nodup c own incoming :
+  NoDup (nt_vids own) -> NoDup (nt_vids (nt_notarization_merged c own incoming)).
+Proof.
+  intros Ho. unfold nt_notarization_merged.
+  destruct (nt_unknown_nodup own incoming) as [Hn Hd].
+  destruct (nt_unknown own incoming) as [|v vts] eqn:E; [exact Ho|].
+  destruct (nt_verify_tickets c (v :: vts)); [|exact Ho].
+  apply nt_merge_nodup; [exact Ho | exact Hn | intros t Ht; apply (Hd t Ht)].
+Qed.
+
+Lemma nt_merge_length_members c own vts :
+  forallb (nt_member c) own = true -> forallb (nt_member c) vts = true ->
+  forallb (nt_member c) (nt_merge own vts) = true.
+Proof.
+  intros Ho Hv. unfold nt_merge. destruct own as [|o own]; [exact Hv|].
+  destruct vts as [|v vts]; [exact Ho|].
+  assert (G : forall rec have acc, forallb (nt_member c) acc = true -> forallb (nt_member c) rec = true ->
+                forallb (nt_member c) (nt_union have acc rec) = true).
+  { induction rec as [|t rec IH]; simpl; intros have acc Ha Hr; [exact Ha|].
+    apply andb_prop in Hr. destruct Hr as [Ht Hr].
+    destruct (existsb (Nat.eqb (nt_vid t)) have); [apply IH; assumption|].
+    apply IH; [rewrite forallb_app, Ha; simpl; rewrite Ht; reflexivity | exact Hr]. }
+  apply G; assumption.
+Qed.
+
+Definition nt_process_ok (c : nt_cfg) (own incoming : list nt_ticket) : Prop :=
+  nt_notarization_process c own incoming = true.
+
+(* a notarization message for a block holding no tickets (or valid tickets of distinct miners):
+   treated as notarized only with at least threshold tickets of pairwise distinct miners of the
+   magic block among the merged ones, the new ones verified in aggregate *)
+Lemma nt_notarization_process_sound c own incoming :
+  nt_by_count c = true -> nt_store_inv c own ->
+  nt_process_ok c own incoming ->
+  let merged := nt_notarization_merged c own incoming in
+  NoDup (nt_vids merged) /\ forallb (nt_member c) merged = true /\ (nt_thr c <= length merged)%nat.
+Proof.
+  intros Hc [Hov Hon] Hp merged. unfold nt_process_ok in Hp.
+  assert (Hom : forallb (nt_member c) own = true).
+  { rewrite forallb_forall in Hov. rewrite forallb_forall. intros x Hx. specialize (Hov x Hx).
+    unfold nt_valid in Hov. apply andb_prop in Hov. tauto. }
+  split; [apply nt_notarization_merged_nodup; exact Hon|].
+  unfold merged, nt_notarization_merged. unfold nt_notarization_process in Hp.
+  destruct (nt_unknown own incoming) as [|v vts] eqn:E.
+  - destruct (nt_verify_notarization_sound c own Hc Hp) as [_ [Hm [Ht _]]]. split; assumption.
+  - apply andb_prop in Hp. destruct Hp as [Hv Hr]. rewrite Hv.
+    pose proof (nt_verify_tickets_facts c (v :: vts) Hv) as [_ [Hm _]].
+    split; [apply nt_merge_length_members; assumption|].
+    unfold nt_reached in Hr. rewrite Hc in Hr. apply Nat.leb_le. exact Hr.
+Qed.
+
+Lemma nt_union_in rec : forall have acc t, In t (nt_union have acc rec) -> In t acc \/ In t rec.
+Proof.
+  induction rec as [|u rec IH]; simpl; intros have acc t Hin; [left; exact Hin|].
+  destruct (existsb (Nat.eqb (nt_vid u)) have).
+  - destruct (IH _ _ _ Hin) as [H|H]; [left; exact H | right; right; exact H].
+  - destruct (IH _ _ _ Hin) as [H|H]; [|right; right; exact H].
+    apply in_app_or in H. destruct H as [H|[H|[]]]; [left; exact H | right; left; exact H].
+Qed.
+
+Lemma nt_merge_in own vts t : In t (nt_merge own vts) -> In t own \/ In t vts.
+Proof.
+  unfold nt_merge. destruct own as [|o own]; [right; assumption|].
+  destruct vts as [|v vts]; [left; assumption|]. apply nt_union_in.
+Qed.
+
+(* ... and when every incoming ticket is individually valid, with at least threshold distinct
+   valid miners *)
+Lemma nt_notarization_process_counts c own incoming :
+  nt_by_count c = true -> nt_store_inv c own ->
+  Forall (fun t => nt_err t = Some 0) incoming ->
+  nt_notarization_process c own incoming = true ->
+  (nt_thr c <= nt_valid_miners c (nt_notarization_merged c own incoming))%nat.
+Proof.
+  intros Hc Ho Hz Hp.
+  destruct (nt_notarization_process_sound c own incoming Hc Ho Hp) as [Hn [Hm Ht]].
+  rewrite nt_valid_miners_all; [exact Ht | exact Hn |].
+  rewrite forallb_forall. intros t Hin.
+  assert (Hmt : nt_member c t = true) by (rewrite forallb_forall in Hm; apply Hm; exact Hin).
+  destruct Ho as [Hov _]. rewrite forallb_forall in Hov.
+  unfold nt_notarization_merged in Hin.
+  destruct (nt_unknown_nodup own incoming) as [_ Hd].
+  destruct (nt_unknown own incoming) as [|v vts] eqn:E; [apply Hov; exact Hin|].
+  destruct (nt_verify_tickets c (v :: vts)); [|apply Hov; exact Hin].
+  destruct (nt_merge_in _ _ _ Hin) as [H|H]; [apply Hov; exact H|].
+  apply nt_valid_of; [exact Hmt|]. rewrite Forall_forall in Hz. apply Hz. apply (Hd t H).
+Qed.
